@@ -158,7 +158,10 @@ inductive WErr
 
 /-- `UDPAssociateWrapper.ReadFrom(p)` with `len(p) = cap` on a received packet: source address and
     the payload copied into `p` (cut to `cap` like a UDP read). -/
-def wrapRead (cap : Nat) (pkt : Bytes) : Except WErr (Bytes × Nat × Bytes) :=
+def wrapRead (cap : Nat) (pkt0 : Bytes) : Except WErr (Bytes × Nat × Bytes) :=
+  -- the wrapper reads the packet into a scratch buffer of len(p)+256 bytes; a longer packet is cut
+  -- there by the underlying PacketConn, as a UDP socket would
+  let pkt := pkt0.take (cap + 256)
   if pkt.length ≤ 6 then .error .tooShort else
   match pkt with
   | r0 :: r1 :: f :: rest =>
